@@ -130,6 +130,28 @@ def unary_ops():
         "permute_t": lambda a: qutip.tensor(a, qutip.Qobj([[1, 2], [3, 4]])).permute([1, 0]),
         "vec_roundtrip": lambda a: qutip.vector_to_operator(qutip.operator_to_vector(a)),
     }
+
+    # channel-representation conversions of superoperators whose flags were
+    # read (or set by their constructor) before the conversion
+    def _read(q):
+        q.isherm, q.isunitary
+        return q
+    conv = {
+        "choi_of_spre_read": lambda a: qutip.to_choi(_read(qutip.spre(a))),
+        "choi_of_spost_read": lambda a: qutip.to_choi(_read(qutip.spost(a))),
+        "choi_of_sprepost_read": lambda a: qutip.to_choi(_read(qutip.sprepost(a, a.dag()))),
+        "choi_of_sprepost_self_read": lambda a: qutip.to_choi(_read(qutip.sprepost(a, a))),
+        "choi_of_spre": lambda a: qutip.to_choi(qutip.spre(a)),
+        "choi_of_liouv_read": lambda a: qutip.to_choi(_read(qutip.liouvillian(a))),
+        "super_of_choi_read": lambda a: qutip.to_super(_read(qutip.to_choi(qutip.sprepost(a, a.dag())))),
+        "super_of_choi_spre_read": lambda a: qutip.to_super(_read(qutip.to_choi(qutip.spre(a)))),
+        "super_of_kraus_choi_read": lambda a: qutip.to_super(_read(qutip.kraus_to_choi([a, a.dag()]))),
+        "chi_of_sprepost_read": lambda a: qutip.to_chi(_read(qutip.sprepost(a, a.dag()))),
+        "choi_of_chi_read": lambda a: qutip.to_choi(_read(qutip.to_chi(qutip.sprepost(a, a.dag())))),
+        "dual_chan_read": lambda a: _read(qutip.to_choi(qutip.sprepost(a, a.dag()))).dual_chan(),
+        "super_dag_read": lambda a: _read(qutip.to_super(_read(qutip.to_choi(qutip.sprepost(a, a.dag()))))).dag(),
+    }
+    ops.update(conv)
     return ops
 
 
